@@ -43,8 +43,13 @@ import json
 import re
 import sqlite3
 
-from sqlalchemy import (BigInteger, Boolean, Column, Date, DateTime, Float, Integer, MetaData, Numeric, String, Table, Time,
-                        Unicode, bindparam, create_engine, exc, insert, literal, select, update)
+import warnings
+
+from sqlalchemy import (BigInteger, Boolean, Column, Date, DateTime, Float, ForeignKey, ForeignKeyConstraint, Integer, MetaData,
+                        Numeric, String, Table, Time, Unicode, bindparam, case, create_engine, delete, exc, func, insert, literal,
+                        literal_column, or_, select, union_all, update)
+from sqlalchemy.orm import Session, aliased, declarative_base, relationship, with_parent
+from sqlalchemy.orm.attributes import instance_state
 from sqlalchemy.dialects import mssql, mysql, oracle, postgresql, sqlite
 from sqlalchemy.dialects.mssql import pymssql
 from sqlalchemy.dialects.mysql import mysqlconnector
@@ -350,6 +355,456 @@ def engine_clause(eng, t, ids, v):
                 out.append(_fail("sqlite-rows", "literal_binds / literal_execute vs bound parameter on SQLite", "sqlite+pysqlite",
                                  dict(value=v, form=form), want, dict(bound=bound, literal_execute=litx, literal_binds=litb), sql=sql))
     return out, n
+
+
+# ------------------------------------------------------------------------------------------------ [source] where the value comes from
+
+PC = {"render_postcompile": True}
+_TS = Table("ts", MetaData(), Column("id", Integer, primary_key=True), Column("x", String), Column("n", Integer), Column("f", Float),
+            Column("b", Boolean), Column("d", DateTime))
+# type name -> (type, column of ts compared with, a second value, a decoy default that must never be rendered)
+SRC_TYPES = {
+    "String": (String(), "x", "z", "decoy"),
+    "Integer": (Integer(), "n", 7, 99),
+    "Float": (Float(), "f", 2.5, 9.5),
+    "Boolean": (Boolean(), "b", False, False),
+    "DateTime": (DateTime(), "d", dt.datetime(2001, 2, 3, 4, 5, 6), dt.datetime(1999, 9, 9)),
+}
+# every way a BindParameter can get its value.  lx-* = the same with literal_execute=True (rendered by the post-compile step)
+SOURCES = ["value", "literal", "callable", "unique-callable", "params", "params-override",
+           "lx-value", "lx-callable", "lx-unique-callable", "lx-params", "lx-params-override"]
+EXEC_SOURCES = ["exec", "exec-override", "lx-exec", "lx-exec-override"]  # value passed to Connection.execute(): Engine part only
+
+
+class Src:
+    """builds the bound parameters of one statement from one source; collects what has to be passed to Executable.params()
+    (self.params) or to Connection.execute() (self.exec_params)"""
+
+    def __init__(self, kind, tname):
+        self.kind, self.tname = kind, tname
+        self.type, _, _, self.decoy = SRC_TYPES[tname]
+        self.params, self.exec_params, self.n = {}, {}, 0
+        self.lx = kind.startswith("lx-")
+        self.base = kind[3:] if self.lx else kind
+
+    @property
+    def compile_kwargs(self):
+        return PC if self.lx else LB
+
+    def __call__(self, value, expanding=False):
+        self.n += 1
+        name = "p%d" % self.n
+        kw = dict(type_=self.type, expanding=expanding, literal_execute=self.lx)
+        decoy = [self.decoy] if expanding else self.decoy
+        k = self.base
+        if k == "value" or (k == "literal" and expanding):
+            return bindparam(name, value, **kw)
+        if k == "literal":
+            return literal(value, self.type)
+        if k == "callable":
+            return bindparam(name, callable_=lambda: value, **kw)
+        if k == "unique-callable":
+            return bindparam("p", callable_=lambda: value, unique=True, **kw)
+        if k in ("params", "params-override"):
+            self.params[name] = value
+            return bindparam(name, **kw) if k == "params" else bindparam(name, decoy, **kw)
+        if k in ("exec", "exec-override"):
+            self.exec_params[name] = value
+            return bindparam(name, **kw) if k == "exec" else bindparam(name, decoy, **kw)
+        raise ValueError(k)
+
+
+_ID = _TS.c.id
+_K = literal_column("1000")
+
+
+def _cte_form(b, c, v, o):
+    k = select(_ID, c).where(or_(c == b(v), c == b(o))).cte("k")
+    return select(k.c.id).where(k.c[c.key] == b(v)).order_by(k.c.id)
+
+
+# statement forms: b(value) makes one bound parameter from the source under test, c is the column of the value's type, o a
+# second value.  No other bound value appears, so the literal text must not depend on the source.
+SRC_FORMS = {
+    "select-list": lambda b, c, v, o: select(b(v).label("v"), _ID).order_by(_ID),
+    "where-eq": lambda b, c, v, o: select(_ID).where(c == b(v)).order_by(_ID),
+    "in-list": lambda b, c, v, o: select(_ID).where(c.in_([b(v), b(o)])).order_by(_ID),
+    "in-expanding": lambda b, c, v, o: select(_ID).where(c.in_(b([v, o], expanding=True))).order_by(_ID),
+    "insert-values": lambda b, c, v, o: insert(_TS).values({"id": _K, c.key: b(v)}),
+    "update-set-where": lambda b, c, v, o: update(_TS).values({c.key: b(v)}).where(or_(c == b(o), c == b(v))),
+    "delete-where": lambda b, c, v, o: delete(_TS).where(c == b(v)),
+    "scalar-subquery": lambda b, c, v, o: select(_ID).where(_ID == select(func.min(_ID)).where(c == b(v)).scalar_subquery()),
+    "cte": _cte_form,
+    "union": lambda b, c, v, o: union_all(select(_ID).where(c == b(v)), select(_ID + _K).where(c == b(o))).order_by("id"),
+    "func-arg": lambda b, c, v, o: select(_ID, func.coalesce(c, b(v)).label("v")).order_by(_ID),
+    "case": lambda b, c, v, o: select(_ID, case((c == b(v), literal_column("1")), else_=literal_column("0")).label("v")).order_by(_ID),
+    "insert-from-select": lambda b, c, v, o: insert(_TS).from_select(["id", c.key], select(_ID + _K, b(v)).where(c == b(o))),
+    "having": lambda b, c, v, o: select(c, func.count().label("k")).group_by(c).having(c == b(v)),
+}
+DML_FORMS = ("insert-values", "update-set-where", "delete-where", "insert-from-select")
+
+
+def source_statement(form, kind, tname, v):
+    """(statement with Executable.params() applied, Src) or (None, Src) when the API refuses the combination"""
+    src = Src(kind, tname)
+    _, cname, other, _ = SRC_TYPES[tname]
+    stmt = SRC_FORMS[form](src, _TS.c[cname], v, other)
+    if src.params:
+        try:
+            stmt = stmt.params(src.params)
+        except NotImplementedError:  # INSERT / UPDATE / DELETE have no params(): not a source there
+            return None, src
+    return stmt, src
+
+
+def source_text(label, form, kind, tname, v):
+    """literal rendering of the statement: (sql, tokens on the wire) / (None, None) when refused"""
+    d, comp, style, bs, npre = variant(label)
+    stmt, src = source_statement(form, kind, tname, v)
+    if stmt is None:
+        return None, None
+    with warnings.catch_warnings():
+        warnings.simplefilter("ignore")
+        try:
+            sql = str(stmt.compile(dialect=d, compile_kwargs=src.compile_kwargs))
+        except (exc.CompileError, exc.StatementError, exc.InvalidRequestError) as ex:
+            return "refused: %s" % type(ex).__name__, None
+    wire = S.driver_percent(sql, style)
+    return sql, (None if wire is None else S.tokens(wire, bs, npre))
+
+
+_SRC_REF = {}
+
+
+def source_clause(label, form, tname, v):
+    """[source-text] every source renders the tokens that the plain value renders.  returns (failures, evaluations, nontrivial)"""
+    out = []
+    n = nt = 0
+    key = (label, form, tname, json.dumps(_jsonable(v)))
+    if key not in _SRC_REF:
+        _SRC_REF[key] = source_text(label, form, "value", tname, v)
+    ref_sql, ref = _SRC_REF[key]
+    if ref is None:
+        return out, 1, 0  # the plain value is refused / not renderable for this driver: [string] / [number] judge that
+    if tname == "String" and v is not None:  # the plain value itself: shape clause, as in [statement]
+        x_sql, x = source_text(label, form, "value", tname, "x")
+        want = [("str", v) if t == ("str", "x") else t for t in x]
+        n += 1
+        if ref != want:
+            out.append(_fail("statement-shape", "SQLCompiler literal rendering in a statement", label,
+                             dict(value=v, form=form, type=tname, source="value"), [list(t) for t in want], [list(t) for t in ref], sql=ref_sql))
+    for kind in SOURCES[1:]:
+        sql, toks = source_text(label, form, kind, tname, v)
+        if sql is None:
+            continue
+        n += 1
+        if toks != ref:
+            out.append(_fail("source-text", "literal rendering of a bound parameter by value source", label,
+                             dict(value=_jsonable(v), form=form, type=tname, source=kind), ref_sql, sql))
+        elif v is not None:
+            nt += 1
+    return out, n, nt
+
+
+def source_values(quick):
+    vals = [("String", s) for s in S.strings(ALPHABET, 1 if quick else 2)]
+    vals += [("String", s) for s in ("it's 100% \\ :x", "'; DROP TABLE ts; --", "\\'", "%s", ":p1", "a" * 40)]
+    vals += [("Integer", i) for i in (0, 2, -1, 2 ** 40)]
+    vals += [("Float", 1.5), ("Float", -0.25), ("Boolean", True), ("DateTime", dt.datetime(2024, 2, 29, 23, 59, 59, 999999))]
+    vals += [("String", None), ("Integer", None)]
+    return vals
+
+
+# -- the same on a real Engine: rows of every source / rendering mode against bound execution of the plain value
+
+ENG_STRS = None
+
+
+def source_engine_setup(strs):
+    eng = create_engine("sqlite://", poolclass=StaticPool)
+    with eng.begin() as conn:
+        _TS.metadata.create_all(conn)
+        rows = [dict(id=i + 1, x=s, n=i % 5, f=None, b=None, d=None) for i, s in enumerate(strs)]
+        rows.append(dict(id=len(strs) + 1, x=None, n=None, f=None, b=None, d=None))
+        conn.execute(insert(_TS), rows)
+    return eng
+
+
+def _run_rows(conn, form, how):
+    """rows of a SELECT, or the table contents after a DML statement (rolled back)"""
+    try:
+        if form in DML_FORMS:
+            sp = conn.begin_nested()
+            try:
+                how(conn)
+                return [list(r) for r in conn.execute(select(_TS.c.id, _TS.c.x, _TS.c.n).order_by(_TS.c.id))]
+            finally:
+                sp.rollback()
+        return [list(r) for r in how(conn)]
+    except (exc.SQLAlchemyError, sqlite3.Error) as ex:
+        return "%s: %s" % (type(ex).__name__, str(ex)[:200])
+
+
+def source_engine_clause(eng, form, tname, v, only=None):
+    """[source-rows]  returns (failures, executions, nontrivial)"""
+    out = []
+    n = nt = 0
+    with warnings.catch_warnings(), eng.connect() as conn:
+        warnings.simplefilter("ignore")
+        ref_stmt, _ = source_statement(form, "value", tname, v)
+        want = _run_rows(conn, form, lambda c: c.execute(ref_stmt))
+        other_stmt, _ = source_statement(form, "value", tname, SRC_TYPES[tname][3])
+        distinct = want != _run_rows(conn, form, lambda c: c.execute(other_stmt))  # the value matters for the answer
+        n += 2
+        for kind in SOURCES + EXEC_SOURCES:
+            if only and kind != only:
+                continue
+            stmt, src = source_statement(form, kind, tname, v)
+            if stmt is None:
+                continue
+            got = {}
+            sql = None
+            ep = [src.exec_params] if src.exec_params else []
+            # what bound / post-compile execution of this very statement does
+            got["execute"] = _run_rows(conn, form, lambda c: c.execute(stmt, *ep))
+            if not src.lx and not src.exec_params:
+                try:
+                    sql = str(stmt.compile(dialect=eng.dialect, compile_kwargs=LB))
+                    got["literal_binds"] = _run_rows(conn, form, lambda c: c.exec_driver_sql(sql))
+                except exc.SQLAlchemyError as ex:
+                    got["literal_binds"] = "%s: %s" % (type(ex).__name__, str(ex)[:200])
+            n += len(got)
+            if any(g != want for g in got.values()):
+                out.append(_fail("source-rows", "literal_binds / literal_execute vs bound parameter on SQLite, by value source", "sqlite+pysqlite",
+                                 dict(value=_jsonable(v), form=form, type=tname, source=kind), want, got, sql=sql))
+            elif distinct:
+                nt += 1
+    return out, n, nt
+
+
+# -- ORM-generated criteria: the parameters are callables that read the instance when the statement is compiled / executed
+
+ORM_FAMILIES = ("int-key", "str-key", "composite-key", "many-to-many")
+ORM_STATES = ("persistent", "expired", "detached", "transient")
+ORM_KEYS = {"int-key": [1, 2, 3], "str-key": ["plain", "it's 100% \\ :x", "';--"], "composite-key": [(1, "a'"), (1, "b\\"), (2, "a'")]}
+
+
+def orm_setup(family):
+    """returns (engine, P, C, data) - parent / child classes with P.kids (one-to-many or many-to-many), P.kids_wo (write only),
+    C.par (many-to-one; absent for many-to-many)"""
+    Base = declarative_base()
+    eng = create_engine("sqlite://", poolclass=StaticPool)
+    if family == "many-to-many":
+        link = Table("link", Base.metadata, Column("pid", ForeignKey("p.id"), primary_key=True), Column("cid", ForeignKey("c.id"), primary_key=True))
+
+        class P(Base):
+            __tablename__ = "p"
+            id = Column(Integer, primary_key=True)
+            kids = relationship("C", secondary=link, order_by="C.id")
+            kids_wo = relationship("C", secondary=link, lazy="write_only", viewonly=True)
+
+        class C(Base):
+            __tablename__ = "c"
+            id = Column(Integer, primary_key=True)
+            email = Column(String)
+
+        def fill(s):
+            cs = [C(id=i, email="e%d" % i) for i in range(1, 6)]
+            s.add_all(cs)
+            s.add_all([P(id=1, kids=[cs[0], cs[1]]), P(id=2, kids=[cs[1], cs[2], cs[3]]), P(id=3, kids=[])])
+        pkeys = [1, 2, 3]
+    else:
+        keys = ORM_KEYS[family]
+        if family == "composite-key":
+            class P(Base):
+                __tablename__ = "p"
+                a = Column(Integer, primary_key=True)
+                b = Column(String, primary_key=True)
+                kids = relationship("C", back_populates="par", order_by="C.id")
+                kids_wo = relationship("C", lazy="write_only", viewonly=True)
+
+            class C(Base):
+                __tablename__ = "c"
+                id = Column(Integer, primary_key=True)
+                pa = Column(Integer)
+                pb = Column(String)
+                email = Column(String)
+                __table_args__ = (ForeignKeyConstraint(["pa", "pb"], ["p.a", "p.b"]),)
+                par = relationship(P, back_populates="kids")
+
+            mkp = lambda k: P(a=k[0], b=k[1])  # noqa: E731
+        else:
+            kt = Integer if family == "int-key" else String
+
+            class P(Base):
+                __tablename__ = "p"
+                id = Column(kt, primary_key=True)
+                kids = relationship("C", back_populates="par", order_by="C.id")
+                kids_wo = relationship("C", lazy="write_only", viewonly=True)
+
+            class C(Base):
+                __tablename__ = "c"
+                id = Column(Integer, primary_key=True)
+                pid = Column(ForeignKey("p.id"))
+                email = Column(String)
+                par = relationship(P, back_populates="kids")
+
+            mkp = lambda k: P(id=k)  # noqa: E731
+
+        def fill(s):
+            ps = [mkp(k) for k in keys]
+            s.add_all(ps)
+            s.add_all([C(id=1, par=ps[0], email="e1"), C(id=2, par=ps[1], email="e2"), C(id=3, par=ps[1], email="e3"),
+                       C(id=4, par=None, email="e4"), C(id=5, par=ps[0], email="e5")])
+        pkeys = keys
+    Base.metadata.create_all(eng)
+    with Session(eng) as s:
+        fill(s)
+        s.commit()
+    return eng, P, C, pkeys
+
+
+def _pk_cols(cls):
+    return list(cls.__mapper__.primary_key)
+
+
+# criterion generators: name -> (instance is "P" or "C", entity selected, criterion(P, C, obj)); None where the family has no such attribute
+def _lazy_clause(rel, obj):
+    return rel.property._lazy_strategy.lazy_clause(instance_state(obj))
+
+
+ORM_CRITERIA = {
+    "m2o-eq": ("P", "C", lambda P, C, o: C.par == o),
+    "m2o-ne": ("P", "C", lambda P, C, o: C.par != o),
+    "m2o-eq-aliased": ("P", "C", None),  # built in orm_statement (needs the alias as the entity)
+    "filter_by": ("P", "C", None),
+    "o2m-contains": ("C", "P", lambda P, C, o: P.kids.contains(o)),
+    "o2m-not-contains": ("C", "P", lambda P, C, o: ~P.kids.contains(o)),
+    "with_parent-o2m": ("P", "C", lambda P, C, o: with_parent(o, P.kids)),
+    "with_parent-m2o": ("C", "P", lambda P, C, o: with_parent(o, C.par)),
+    "write_only-select": ("P", "C", None),
+    "lazy_clause-o2m": ("P", "C", lambda P, C, o: _lazy_clause(P.kids, o)),
+    "lazy_clause-m2o": ("C", "P", lambda P, C, o: _lazy_clause(C.par, o)),
+}
+ORM_M2M_SKIP = ("m2o-eq", "m2o-ne", "m2o-eq-aliased", "filter_by", "with_parent-m2o", "lazy_clause-m2o")
+ORM_FORMS = ("select-where", "in-subquery", "union", "cte", "update-where", "delete-where")
+
+
+def orm_statement(P, C, gen, form, obj):
+    """the statement of one case, or None when the combination does not exist"""
+    side, ent, mk = ORM_CRITERIA[gen]
+    E = C if ent == "C" else P
+    cols = _pk_cols(E)
+    if gen == "m2o-eq-aliased":
+        A = aliased(C)
+        base = select(A.id).where(A.par == obj)
+        crit = None
+    elif gen == "filter_by":
+        base = select(C.id).filter_by(par=obj)
+        crit = None
+    elif gen == "write_only-select":
+        base = obj.kids_wo.select().with_only_columns(C.id)
+        crit = None
+    else:
+        crit = mk(P, C, obj)
+        base = select(*cols).where(crit)
+    if form == "select-where":
+        return base.order_by(*base.selected_columns)
+    if form == "in-subquery":
+        if len(cols) != 1:
+            return None
+        return select(E.__table__.c.id).where(E.__table__.c.id.in_(base)).order_by(E.__table__.c.id)
+    if form == "union":
+        return union_all(base, base).order_by(*[c.key for c in cols])
+    if form == "cte":
+        k = base.cte("k")
+        return select(k).order_by(*k.c)
+    if crit is None or E is not C:
+        return None
+    if form == "update-where":
+        return update(C).where(crit).values(email="changed")
+    if form == "delete-where":
+        return delete(C).where(crit)
+    raise ValueError(form)
+
+
+def _orm_object(sess, P, C, pkeys, side, idx, state):
+    """the instance the criterion is built from, in the requested state"""
+    if side == "P":
+        cls, key = P, pkeys[idx]
+    else:
+        cls, key = C, idx + 1
+    if state == "transient":
+        if cls is P:
+            cols = [c.key for c in _pk_cols(P)]
+            return P(**dict(zip(cols, key if isinstance(key, tuple) else (key,))))
+        src = sess.get(C, key)
+        kw = {c.key: getattr(src, c.key) for c in C.__table__.c}
+        sess.expunge(src)
+        return C(**kw)
+    obj = sess.get(cls, key)
+    if state == "expired":
+        sess.expire(obj)
+    elif state == "detached":
+        sess.refresh(obj)
+        sess.expunge(obj)
+    return obj
+
+
+def orm_clause(eng, P, C, pkeys, family, gen, form, state, idx):
+    """[orm-criteria]  returns (failure or None, executions, nontrivial)"""
+    side = ORM_CRITERIA[gen][0]
+    inp = dict(family=family, criterion=gen, form=form, state=state, instance=idx)
+    with warnings.catch_warnings(), Session(eng) as sess:
+        warnings.simplefilter("ignore")
+        C_tab = C.__table__
+        snap = lambda: [list(r) for r in sess.connection().execute(select(C_tab).order_by(C_tab.c.id))]  # noqa: E731
+        try:
+            obj = _orm_object(sess, P, C, pkeys, side, idx, state)
+            stmt = orm_statement(P, C, gen, form, obj)
+        except (exc.SQLAlchemyError, NotImplementedError) as ex:  # e.g. write-only collection of a transient object: refused
+            return None, 0, 0
+        if stmt is None:
+            return None, 0, 0
+        dml = form in ("update-where", "delete-where")
+        before = snap() if dml else None
+
+        def run_it(how):
+            try:
+                if dml:
+                    sp = sess.begin_nested()
+                    try:
+                        how()
+                        return snap()
+                    finally:
+                        sp.rollback()
+                return [list(r) for r in how()]
+            except (exc.SQLAlchemyError, sqlite3.Error) as ex:
+                return "%s: %s" % (type(ex).__name__, str(ex)[:200])
+
+        bound = run_it(lambda: sess.execute(stmt, execution_options={"synchronize_session": False} if dml else {}))
+        if state == "expired" and obj in sess:
+            sess.expire(obj)
+        try:
+            sql = str(stmt.compile(eng, compile_kwargs=LB))
+            lit = run_it(lambda: sess.connection().exec_driver_sql(sql))
+        except exc.SQLAlchemyError as ex:
+            sql, lit = None, "%s: %s" % (type(ex).__name__, str(ex)[:200])
+        nontrivial = (bound != before) if dml else bool(bound) and not isinstance(bound, str)
+        if bound != lit or isinstance(bound, str):
+            return (_fail("orm-criteria", "literal_binds vs bound parameters for ORM-generated criteria", "sqlite+pysqlite", inp, bound, lit, sql=sql),
+                    2, 0)
+        return None, 2, int(nontrivial)
+
+
+def orm_cases(family):
+    for gen, (side, ent, mk) in ORM_CRITERIA.items():
+        if family == "many-to-many" and gen in ORM_M2M_SKIP:
+            continue
+        for form in ORM_FORMS:
+            for state in ORM_STATES:
+                for idx in range(3):
+                    yield gen, form, state, idx
 
 
 # ------------------------------------------------------------------------------------------------ workers
